@@ -30,6 +30,9 @@ CHECKS = {
  "C11": ("exploration", "reference retained-map model; probe subscribers, live observer, offline persistent subscriber and '#' checkpoints compared behind marker fences",
          "120 (quick) / 2500 (thorough) histories of 14-28 steps: retained/plain/empty publishes, retained wills of dropped victims, subscriptions cycling through all 105 filters of the depth<=3 universe",
          "per-filter replay of one SUBSCRIBE may arrive 1..k times; QoS 0 publishes for an offline persistent subscriber may be dropped", "2-C11"),
+ "C07": ("fault_enumeration", "offline checkers over the recorded event log (backend ack -> PUBACK/PUBCOMP order, three-state QoS 2 receiver model driven by the broker's own received-packet report, hand-over counts) plus a pre-send assertion on the session for PUBREC and a SUBACK fence through the ack queue",
+         "every publisher script of length <=3 (quick) / <=4 plus sampled length 5 (thorough) x every single connection-fault position (k-th Send/Receive, before/after, per connection) x backend ack mode {sync, late, never} x backend refusing the k-th hand-over; held-late-ack scenarios",
+         "what the broker received is taken from Log(PacketReceived); one finding (second hand-over while the first is still unacknowledged) is recorded in known_findings.json", "2-C07"),
 }
 NOT_APPLICABLE = {}
 def main():
